@@ -69,6 +69,7 @@ type Term struct {
 	id   int32
 	sv    *Term // the single variable this term depends on (nil if none or several)
 	multi bool  // depends on more than one variable, or on an uninterpreted function
+	uf    bool   // contains an uninterpreted function application
 	sh    uint64 // structural hash, independent of term ids (same across engines)
 }
 
@@ -126,6 +127,9 @@ func (ts *TermStore) mk(k termKey, a, b, d *Term) *Term {
 		for _, kid := range [3]*Term{a, b, d} {
 			if kid == nil {
 				continue
+			}
+			if kid.uf {
+				t.uf = true
 			}
 			if kid.multi {
 				t.multi = true
@@ -619,7 +623,7 @@ func (ts *TermStore) UF(name string, resW uint8, args ...*Term) *Term {
 		return t
 	}
 	ts.nextID++
-	t := &Term{op: opUF, w: resW, name: name, kids: append([]*Term(nil), args...), id: ts.nextID, multi: true}
+	t := &Term{op: opUF, w: resW, name: name, kids: append([]*Term(nil), args...), id: ts.nextID, multi: true, uf: true}
 	ts.tab[k] = t
 	d.apps = append(d.apps, t)
 	return t
